@@ -2,7 +2,7 @@
    arity tests, type assertions, Identical / AssignableTo / IsError tests, and every index
    expression (typs[i], Tuple.At(i)) — an index out of range or a failed unchecked type
    assertion is the outcome [Crash].  The code modelled is /repo with the C09 fix patches (incl. C09-fix-send-only-channel and
-   C09-fix-untyped-constant-argument). *)
+   C09-fix-untyped-constant-argument, C09-fix-variadic-function-arguments). *)
 From Verif Require Import Base.
 From Verif.Validate Require Import Aty.
 From Coq Require Import Bool List Arith NArith.
@@ -27,8 +27,29 @@ Definition all_plugins : list plugin :=
    PEqual; PFilter; PFlip; PFmap; PGostring; PHash; PIntersect; PJoin; PKeys; PMax; PMem; PMin;
    PPipeline; PSet; PSort; PTakewhile; PToerror; PTraverse; PTuple; PUncurry; PUnion; PUnique].
 
-(* ---- all, any, filter, takewhile: (func(T) bool, []T) ---- *)
+(* ---- all, any, filter, takewhile: (func(T) bool, []T); fixed: a variadic function is refused
+        (its parameter type is the slice type []T, the generated parameter was `func([]T) bool`) ---- *)
 Definition add_pred (typs : list aty) : gres :=
+  need (length typs =? 2) (
+  idx typs 1 (fun t1 =>
+  match t1 with
+  | ASlice elem =>
+      idx typs 0 (fun t0 =>
+      match t0 with
+      | ASig ps rs v =>
+          need (negb v) (
+          need (alen ps =? 1) (
+          at_ ps 0 (fun inTyp =>
+          need (identical inTyp elem) (
+          need (alen rs =? 1) (
+          at_ rs 0 (fun outTyp => need (identical outTyp (ABasic KBool)) Ok))))))
+      | _ => Err
+      end)
+  | _ => Err
+  end)).
+
+(* the code before C09-fix-variadic-function-arguments: the variadic flag is not looked at *)
+Definition add_pred_prefix (typs : list aty) : gres :=
   need (length typs =? 2) (
   idx typs 1 (fun t1 =>
   match t1 with
@@ -177,8 +198,17 @@ Definition add_dup_prefix (typs : list aty) : gres :=
   need (length typs =? 1) (
   idx typs 0 (fun t0 => match t0 with AChan _ _ => Ok | _ => Err end)).
 
-(* ---- fmap ---- *)
+(* ---- fmap; fixed: sliceInOut, stringOut, chanInOut and errorInOut refuse a variadic function ---- *)
 Definition fmap_fn1 (t0 : aty) (elem : aty) : gres :=     (* f func(elem) R, exactly one result *)
+  match t0 with
+  | ASig ps rs v =>
+      need (negb v) (
+      need (alen ps =? 1) (
+      at_ ps 0 (fun inTyp => need (identical inTyp elem) (need (alen rs =? 1) (at_ rs 0 (fun _ => Ok))))))
+  | _ => Err
+  end.
+(* the code before the fix *)
+Definition fmap_fn1_prefix (t0 : aty) (elem : aty) : gres :=
   match t0 with
   | ASig ps rs _ =>
       need (alen ps =? 1) (
@@ -194,7 +224,8 @@ Definition fmap_errorInOut (t0 t1 : aty) : gres :=
       need (is_error e) (
       at_ ers 0 (fun elem =>
       match t0 with
-      | ASig ps _ _ => need (alen ps =? 1) (at_ ps 0 (fun inTyp => need (identical inTyp elem) Ok))
+      | ASig ps _ v =>
+          need (negb v) (need (alen ps =? 1) (at_ ps 0 (fun inTyp => need (identical inTyp elem) Ok)))
       | _ => Err
       end)))))
   | _ => Err
@@ -290,10 +321,12 @@ Definition add_mem_prefix (typs : list aty) : gres :=
   idx typs 0 (fun t0 => match t0 with ASig _ _ _ => Ok | _ => idx typs 1 (fun _ => Err) end)).
 
 (* ---- pipeline: (func(A) <-chan B, func(B) <-chan C); fixed: the resulting channel of the first
-        function may not be send only, that of the second one has to be receive only ---- *)
+        function may not be send only, that of the second one has to be receive only; neither
+        function may be variadic ---- *)
 Definition funcInChanOut (t : aty) (recvOnly : bool) : option (aty * aty) + gres :=
   match t with
-  | ASig ps rs _ =>
+  | ASig ps rs v =>
+      if v then inr Err else               (* fixed: variadic functions are refused *)
       if negb (alen ps =? 1) then inr Err else
       if negb (alen rs =? 1) then inr Err else
       match anth rs 0, anth ps 0 with
@@ -320,6 +353,36 @@ Definition add_pipeline (typs : list aty) : gres :=
       end)
   end)).
 
+(* the code before C09-fix-variadic-function-arguments: the variadic flag is not looked at *)
+Definition funcInChanOut_prefix (t : aty) (recvOnly : bool) : option (aty * aty) + gres :=
+  match t with
+  | ASig ps rs _ =>
+      if negb (alen ps =? 1) then inr Err else
+      if negb (alen rs =? 1) then inr Err else
+      match anth rs 0, anth ps 0 with
+      | Some (AChan d e), Some p =>
+          if is_send d then inr Err else
+          if recvOnly && negb (is_recv d) then inr Err else inl (Some (p, e))
+      | Some _, Some _ => inr Err
+      | _, _ => inr Crash
+      end
+  | _ => inr Err
+  end.
+Definition add_pipeline_prefix (typs : list aty) : gres :=
+  need (length typs =? 2) (
+  idx typs 0 (fun t0 =>
+  match funcInChanOut_prefix t0 false with
+  | inr r => r
+  | inl None => Crash
+  | inl (Some (_, b1)) =>
+      idx typs 1 (fun t1 =>
+      match funcInChanOut_prefix t1 true with
+      | inr r => r
+      | inl None => Crash
+      | inl (Some (b2, _)) => need (identical b1 b2) Ok
+      end)
+  end)).
+
 (* ---- toerror: (error, func(...) (..., bool)); fixed code refuses variadic functions ---- *)
 Definition add_toerror (typs : list aty) : gres :=
   need (length typs =? 2) (
@@ -334,7 +397,7 @@ Definition add_toerror (typs : list aty) : gres :=
   | _ => Err
   end)))).
 
-(* ---- traverse: (func(A) (B, error), []A) ---- *)
+(* ---- traverse: (func(A) (B, error), []A); fixed: a variadic function is refused ---- *)
 Definition add_traverse (typs : list aty) : gres :=
   need (length typs =? 2) (
   idx typs 1 (fun t1 =>
@@ -342,12 +405,13 @@ Definition add_traverse (typs : list aty) : gres :=
   | ASlice elem =>
       idx typs 0 (fun t0 =>
       match t0 with
-      | ASig ps rs _ =>
+      | ASig ps rs v =>
+          need (negb v) (
           need (alen ps =? 1) (
           at_ ps 0 (fun inTyp =>
           need (identical inTyp elem) (
           need (alen rs =? 2) (
-          at_ rs 1 (fun e => need (is_error e) (at_ rs 0 (fun _ => Ok)))))))
+          at_ rs 1 (fun e => need (is_error e) (at_ rs 0 (fun _ => Ok))))))))
       | _ => Err
       end)
   | _ => Err
